@@ -366,7 +366,7 @@ impl<'a> Run<'a> {
 
     pub(crate) fn new_child(&self, spec: &ChildSpec) -> u32 {
         w(|w| {
-            let tgt = self.relay_target(w);
+            let tgt = if spec.mode == Mode::Relay { self.relay_target(w) } else { None };
             let id = w.new_child(spec.mode);
             let c = &mut w.children[id as usize];
             c.fail = spec.fail;
@@ -485,6 +485,15 @@ impl<'a> Run<'a> {
         self.post_op();
     }
 
+    /// outputs produced inside the subject and not handed out yet (ordered queues park them)
+    pub(crate) fn parked(&self) -> usize {
+        if self.cfg.kind.is_collection() {
+            self.model.len().saturating_sub(w(|w| self.running(w)))
+        } else {
+            0
+        }
+    }
+
     pub(crate) fn drop_subject(&mut self) {
         if let Some(s) = self.subj.take() {
             w(|w| w.call_id += 1);
@@ -600,10 +609,9 @@ impl<'a> Run<'a> {
             let held = w.held() as u64;
             let cp = w.cpoll_id;
             let starving: Option<(usize, u64)> = w
-                .children
+                .live_ids
                 .iter()
-                .enumerate()
-                .filter(|(_, c)| c.accepted && c.drops == 0 && !c.completed)
+                .map(|&i| (i as usize, &w.children[i as usize]))
                 .filter_map(|(i, c)| c.victim_wake_cpoll.map(|(c0, h0)| (i, cp - c0, h0.max(held))))
                 .find(|(_, waited, h)| *waited > 4 * h + 8)
                 .map(|(i, waited, _)| (i, waited));
@@ -706,7 +714,7 @@ impl<'a> Run<'a> {
                 w.violate("C02", "pending-while-empty", format!("{:?}: poll_next returned Pending although nothing is held", cfg.kind));
             }
             if cfg.kind.is_merge() {
-                let live: Vec<&Child> = w.children.iter().filter(|c| c.accepted && c.drops == 0 && !c.completed).collect();
+                let live: Vec<&Child> = w.live_ids.iter().map(|&i| &w.children[i as usize]).collect();
                 let some_pending = live.iter().any(|c| matches!(c.last_answer, Ans::Pending | Ans::None));
                 if !some_pending && !w.last_poll_woken {
                     if live.is_empty() {
@@ -749,7 +757,7 @@ impl<'a> Run<'a> {
                 }
             }
             if cfg.kind.is_merge() {
-                let live = w.children.iter().filter(|c| c.accepted && c.drops == 0 && !c.completed).count();
+                let live = w.live_ids.len();
                 if live > 0 {
                     w.violate("C11", "none-while-source-live", format!("merge returned None while {} source(s) have not ended", live));
                 }
@@ -886,13 +894,16 @@ impl<'a> Run<'a> {
         w(|w| {
             if self.subj.is_some() && w.last_poll_pending && !w.last_poll_woken {
                 let start = w.last_poll_start;
-                let owed: Vec<u32> = w
-                    .children
+                let mut owed: Vec<u32> = w
+                    .live_ids
                     .iter()
-                    .enumerate()
-                    .filter(|(_, c)| c.accepted && c.drops == 0 && !c.completed && c.owed && c.accept_time < start)
-                    .map(|(i, _)| i as u32)
+                    .copied()
+                    .filter(|&i| {
+                        let c = &w.children[i as usize];
+                        c.owed && c.accept_time < start
+                    })
                     .collect();
+                owed.sort();
                 if !owed.is_empty() && w.child_polls_in_call > 0 {
                     let n = w.child_polls_in_call;
                     w.violate(
@@ -967,7 +978,7 @@ impl<'a> Run<'a> {
         // C09 (1): concurrency limit
         if cfg.kind.is_adapter() && cfg.limit() >= 1 {
             w(|w| {
-                let unfinished = w.children.iter().filter(|c| c.accepted && !c.completed && c.drops == 0).count();
+                let unfinished = w.live_ids.len();
                 if unfinished > cfg.limit() {
                     w.violate("C09", "limit-exceeded", format!("{:?}: {} unfinished futures held", cfg.kind, unfinished));
                 }
